@@ -1,4 +1,5 @@
 import OptunaVerif.Lemmas.Direction
+import OptunaVerif.Lemmas.Nsga2Mirror
 import OptunaVerif.Generated.DirectionSites
 /-!
 # C13 — maximising `f` behaves exactly like minimising `-f`
@@ -15,9 +16,12 @@ direction dependence is tied by the T-sites inventory (`direction_sites_all_mode
 obligation over a table regenerated from `/repo` on every run) and by paired runs of the real code
 (`verif/props/c13.py`); float rounding of `100 - q` / `lerp` is outside ℚ.
 
-Two sites of today's code are **not** symmetric; the negations are proved here with concrete
-witnesses that the harness replays on the real code:
-`crowding_order_not_symmetric` (NSGA-II) and `nsga3_shift_not_symmetric` (NSGA-III).
+Two sites were **not** symmetric and have been repaired in `/repo`.  NSGA-II `_crowding_distance_sort` (finding
+F-C13-1: ties between equal crowding distances were ordered by the raw last objective) now sorts by
+`(-distance, number)`: `crowding_order_symmetric` for ALL fronts with distinct numbers and pairwise-distinct values
+per objective; `crowding_old_order_not_symmetric` keeps the old behaviour's witness (about `crowdingSortOld`), so that a
+revert is recognised.  NSGA-III niching on raw values (finding F-C13-2): `nsga3_shift_symmetric`;
+`nsga3_raw_shift_not_symmetric` keeps the old behaviour's witness.
 -/
 namespace OptunaVerif.C13
 open OptunaVerif OptunaVerif.Direction
@@ -406,26 +410,136 @@ theorem best_trial_mirror (ts : List TV) :
 example : (bestTrial .maximize [(0, 1), (1, 5), (2, 5), (3, 2)]).map (·.1) = some 1 ∧
     (bestTrial .minimize [(0, 1), (1, 5), (2, 5), (3, 2)]).map (·.1) = some 0 := by decide +kernel
 
-/-! ## sites of today's code that are NOT symmetric (negations, with replayable witnesses) -/
+/-! ## NSGA-II crowding-distance sort and NSGA-III niching: symmetric since the repairs of F-C13-1 / F-C13-2; the old
+behaviours are kept as definitions with their (replayable) witnesses -/
 
 def witnessPop : List Ind := [⟨0, [0, 0]⟩, ⟨1, [1, 1]⟩]
 
-/-- NSGA-II `_crowding_distance_sort` on the front {#0 = (0,0), #1 = (1,1)} of a study with
-directions (minimize, maximize): the two boundary individuals tie at distance `inf`, and the
-order among them is the raw order of the *last* objective.  Under (minimize, minimize) with the
-second objective negated the order is the opposite one, so the elite population (and every
-parent drawn from it by index) differs between the two runs. -/
-theorem crowding_order_not_symmetric :
-    (crowdingSort witnessPop 2).map (·.number) = [1, 0] ∧
-    (crowdingSort (witnessPop.map (flipInd [false, true])) 2).map (·.number) = [0, 1] := by
+theorem flipVals_getD_rat (mask : List Bool) (vs : List Rat) (i : Nat) (h1 : i < mask.length) (h2 : i < vs.length) :
+    (flipVals mask vs).getD i 0 = if mask.getD i false then -(vs.getD i 0) else vs.getD i 0 := by
+  induction mask generalizing vs i with
+  | nil => simp at h1
+  | cons m ms ih =>
+    cases vs with
+    | nil => simp at h2
+    | cons v vs =>
+      cases i with
+      | zero => cases m <;> simp [flipVals]
+      | succ i =>
+        simp only [List.length_cons, Nat.add_lt_add_iff_right] at h1 h2
+        simpa [flipVals] using ih vs i h1 h2
+
+/-- mirroring commutes with the passage to the NSGA-II model's individuals -/
+theorem toN_flipInd (mask : List Bool) (n : Nat) (x : Ind) (hm : mask.length = n) (hv : x.values.length = n) :
+    Ind.toN n (flipInd mask x) = Nsga2.flipInd mask (Ind.toN n x) := by
+  unfold Ind.toN flipInd Nsga2.flipInd
+  simp only [Nsga2.Ind.mk.injEq, true_and, and_true]
+  apply List.ext_getElem
+  · simp [Nsga2.flipVals_length]
+  · intro i h1 h2
+    simp only [List.length_map, List.length_range] at h1
+    have hfl := Nsga2.flipVals_getD mask ((List.range n).map (fun i => XVal.fin (x.values.getD i 0))) i
+    rw [List.getD_eq_getElem?_getD, List.getElem?_eq_getElem h2] at hfl
+    simp only [Option.getD_some] at hfl
+    rw [hfl]
+    simp only [List.getElem_map, List.getElem_range, List.getD_eq_getElem?_getD, List.getElem?_map,
+      List.getElem?_range h1, Option.map_some, Option.getD_some]
+    have := flipVals_getD_rat mask x.values i (by omega) (by omega)
+    simp only [List.getD_eq_getElem?_getD] at this
+    rw [this]
+    unfold Nsga2.flipOne
+    split <;> simp [Nsga2.xneg]
+
+theorem toN_val (n : Nat) (x : Ind) (i : Nat) :
+    (Ind.toN n x).val Nsga2.xnum i = if i < n then XVal.fin (x.values.getD i 0) else XVal.fin 0 := by
+  unfold Nsga2.Ind.val Ind.toN
+  simp only [List.getD_eq_getElem?_getD, List.getElem?_map]
+  by_cases h : i < n
+  · simp [List.getElem?_range h, h, Nsga2.xnum]
+  · have : (List.range n)[i]? = none := by simp; omega
+    simp [this, h, Nsga2.xnum]
+
+/-- **crowding_order_symmetric** (NSGA-II, after the repair of F-C13-1).  For EVERY front — any size, any number of
+objectives `n`, any rational values — whose trial numbers are pairwise distinct and in which no two individuals
+share a value in any objective (the property's quantifier: pairwise-distinct values), and for EVERY subset of
+negated objectives: `_crowding_distance_sort` lists the same trials in the same order in the study and in its mirror
+image.  (Crowding distances are equal trial by trial — `C13Nsga.crowding_distance_mirror` — and the order is a
+function of (distance, number) only.) -/
+theorem crowding_order_symmetric (pop : List Ind) (n : Nat) (mask : List Bool)
+    (hnum : (pop.map (·.number)).Nodup) (hvals : ∀ x ∈ pop, x.values.length = n) (hmask : mask.length = n)
+    (htf : ∀ i < n, (pop.map (fun x => x.values.getD i 0)).Nodup) :
+    (crowdingSort (pop.map (flipInd mask)) n).map (·.number) = (crowdingSort pop n).map (·.number) := by
+  cases pop with
+  | nil => rfl
+  | cons p0 t =>
+    unfold crowdingSort
+    have hflip : ((p0 :: t).map (flipInd mask)).map (Ind.toN n) = ((p0 :: t).map (Ind.toN n)).map (Nsga2.flipInd mask) := by
+      simp only [List.map_map]
+      apply List.map_congr_left
+      intro x hx
+      exact toN_flipInd mask n x hmask (hvals x hx)
+    rw [hflip]
+    simp only [List.map_cons]
+    have hlen0 : (Ind.toN n p0).values.length = n := by simp [Ind.toN]
+    apply Nsga2.crowdingSort_mirror mask (Ind.toN n p0) (t.map (Ind.toN n))
+    · intro z hz i
+      rw [← List.map_cons] at hz
+      obtain ⟨w, _, rfl⟩ := List.mem_map.1 hz
+      rw [toN_val]
+      split <;> simp [Nsga2.NotNaN]
+    · rw [← List.map_cons, List.map_map]
+      exact hnum
+    · intro i hi
+      rw [hlen0] at hi
+      unfold Nsga2.TieFree
+      rw [← List.map_cons, List.map_map]
+      have : ((fun x => Nsga2.Ind.val Nsga2.xnum x i) ∘ Ind.toN n) = (fun x : Ind => XVal.fin (x.values.getD i 0)) := by
+        funext x
+        simp [toN_val, hi]
+      rw [this]
+      have h := (htf i hi).map (f := XVal.fin) (fun a b h => by simpa using h)
+      rw [List.map_map] at h
+      exact h
+
+-- non-vacuity: the witness front of the former finding, and a front of five trials with three objectives
+example : (crowdingSort witnessPop 2).map (·.number) = [0, 1] ∧
+    (crowdingSort (witnessPop.map (flipInd [false, true])) 2).map (·.number) = [0, 1] := by decide +kernel
+
+example :
+    let pop : List Ind := [⟨7, [0, 9, 3]⟩, ⟨2, [1, 7, 8]⟩, ⟨5, [4, 4, 0]⟩, ⟨3, [6, 1, 5]⟩, ⟨9, [3, 6, 4]⟩]
+    (crowdingSort pop 3).map (·.number) = [2, 3, 5, 7, 9] ∧
+    (crowdingSort (pop.map (flipInd [true, false, true])) 3).map (·.number) = [2, 3, 5, 7, 9] ∧
+    (crowdingSortOld pop 3).map (·.number) ≠ (crowdingSortOld (pop.map (flipInd [true, false, true])) 3).map (·.number) := by
   decide +kernel
 
-/-- NSGA-III `_normalize_objective_values` subtracts the per-column *minimum* of the raw values
-whatever the direction: for the same two trials the shifted matrix fed to the niching step differs
-between directions (maximize, minimize) and the mirrored (minimize, minimize). -/
-theorem nsga3_shift_not_symmetric :
-    nsga3Shift [[0, 1], [1, 0]] = [[0, 1], [1, 0]] ∧
-    nsga3Shift ([[0, 1], [1, 0]].map (flipVals [true, false])) = [[1, 1], [0, 0]] := by
+/-- What the code did before the repair (`sort(key=distance); reverse()`) is not symmetric: on the front
+{#0 = (0,0), #1 = (1,1)} of a (minimize, maximize) study the two boundary individuals tie at distance `inf` and come
+out as `[1, 0]`, in the mirrored (minimize, minimize) study as `[0, 1]`.  If the tie-break by number is lost again,
+the K witness of `c13.py` reproduces exactly these two orders. -/
+theorem crowding_old_order_not_symmetric :
+    (crowdingSortOld witnessPop 2).map (·.number) = [1, 0] ∧
+    (crowdingSortOld (witnessPop.map (flipInd [false, true])) 2).map (·.number) = [0, 1] := by
+  decide +kernel
+
+/-- NSGA-III (after the repair of finding F-C13-2): the matrix handed to the niching step is computed from the
+loss matrix (`* signs` in `__call__`, then the ideal-point shift of `_normalize_objective_values`), so it is the
+same in the two runs for every subset of flipped objectives, every population, every number of objectives. -/
+theorem nsga3_shift_symmetric (mask : List Bool) (dirs : List Dir) (rows : List (List Rat))
+    (h1 : mask.length = dirs.length) :
+    nsga3Shift (flipDirs mask dirs) (rows.map (flipVals mask)) = nsga3Shift dirs rows := by
+  unfold nsga3Shift
+  exact normalised_component_symmetric nsga3ShiftRaw mask dirs rows h1
+
+/-- non-vacuity: the witness of the former finding, now equal -/
+example : nsga3Shift [.maximize, .minimize] [[0, 1], [1, 0]] = [[1, 1], [0, 0]] ∧
+    nsga3Shift [.minimize, .minimize] ([[0, 1], [1, 0]].map (flipVals [true, false])) = [[1, 1], [0, 0]] := by
+  decide +kernel
+
+/-- What the code did before the repair (shift of the *raw* values, whatever the direction) is not symmetric:
+if the `* signs` is lost again, the K witness of `c13.py` reproduces exactly these two matrices. -/
+theorem nsga3_raw_shift_not_symmetric :
+    nsga3ShiftRaw [[0, 1], [1, 0]] = [[0, 1], [1, 0]] ∧
+    nsga3ShiftRaw ([[0, 1], [1, 0]].map (flipVals [true, false])) = [[1, 1], [0, 0]] := by
   decide +kernel
 
 /-! ## T-sites: every syntactic use of the study direction is one of the modelled kinds -/
@@ -482,6 +596,8 @@ def modelled : List (Nat × String × String × String) := [
     "lvals *= np.array([-1.0 if d == StudyDirection.MAXIMIZE else 1.0 for d in study.directions])"),
   (548322413692360182, "optuna/samplers/_tpe/sampler.py :: _split_complete_trials_single_objective", "splitCompleteSingle / split_complete_single_mirror",
     "if study.direction == StudyDirection.MINIMIZE:\n    sorted_trials = sorted(trials, key=lambda trial: cast(float, trial.value))\nelse:\n    sorted_trials = sorted(trials, key=lambda trial: cast(float, trial.value), reverse=True)"),
+  (1023719012774262988, "optuna/samplers/_nsgaiii/_elite_population_selection_strategy.py :: NSGAIIIElitePopulationSelectionStrategy.__call__", "nsga3Shift / nsga3_shift_symmetric",
+    "signs = np.array([-1.0 if d == StudyDirection.MAXIMIZE else 1.0 for d in study.directions])"),
   (1009417229565642569, "optuna/samplers/nsgaii/_elite_population_selection_strategy.py :: _rank_population", "lossRow / normalised_component_symmetric",
     "objective_values *= np.array([-1.0 if d == StudyDirection.MAXIMIZE else 1.0 for d in directions])"),
   (483258862141608860, "optuna/storages/_in_memory.py :: InMemoryStorage._update_cache", "updateBest / best_trial_mirror",
@@ -530,6 +646,6 @@ theorem modelled_sites_all_present :
 theorem handed_on_sites_all_present :
     (handedOn.map (·.1)).all (fun k => (sites.map (·.key)).contains k) = true := by decide
 
-example : sites.length ≥ 60 ∧ modelled.length = 17 ∧ handedOn.length = 11 := by decide
+example : sites.length ≥ 60 ∧ modelled.length = 18 ∧ handedOn.length = 11 := by decide
 
 end OptunaVerif.C13
